@@ -5,8 +5,8 @@ import Hgxv.Model.AList
 hypergraphx/core/directed_hypergraph.py).  Core Lean only.
 
 A `Content κ` is what the public API shows of an object: the weighted flag, the nodes (insertion
-ordered, with their metadata) and the hyperedges (insertion ordered, canonical key ↦ weight and
-metadata).  `κ = UKey` (sorted node tuple) for `Hypergraph`, `κ = DKey` (sorted sources, sorted
+ordered, with their metadata), the hyperedges (insertion ordered, canonical key ↦ weight and
+metadata), the incidence metadata, the empty edges and the hypergraph-level metadata.  `κ = UKey` (sorted node tuple) for `Hypergraph`, `κ = DKey` (sorted sources, sorted
 targets) for `DirectedHypergraph`.  Weights are integer multiples of a quantum (1/4); the weight
 `1` the code uses for "no weight given" is `unitW`.  Metadata are association lists of tokens.
 
@@ -25,23 +25,42 @@ def unitW : W := 4
 class Keyed (κ : Type) where
   members : κ → List Node
   size : κ → Nat
+  /-- token of the class name the constructor writes into the hypergraph-level metadata (`"type"`) -/
+  typeTok : Nat
 
 abbrev UKey := List Nat
 abbrev DKey := List Nat × List Nat
-instance : Keyed UKey := ⟨fun k => k, fun k => k.length⟩
+instance : Keyed UKey := ⟨fun k => k, fun k => k.length, 0⟩
 /-- `_get_edge_size(edge) = len(edge[0]) + len(edge[1])`; nodes are linked sources first -/
-instance : Keyed DKey := ⟨fun k => k.1 ++ k.2, fun k => k.1.length + k.2.length⟩
+instance : Keyed DKey := ⟨fun k => k.1 ++ k.2, fun k => k.1.length + k.2.length, 1⟩
+
+/-- the key under which `set_incidence_metadata(edge, node, md)` stores: `(edge, node)` where `edge` is the
+tuple AS GIVEN for `Hypergraph` (not sorted; rendered `(raw, [])`) and the canonical pair for
+`DirectedHypergraph` -/
+abbrev IncKey := (List Nat × List Nat) × Node
+
+/-- attribute tokens of the two entries the constructor puts into the hypergraph-level metadata -/
+def attrWeighted : Nat := 100
+def attrType : Nat := 101
 
 structure Content (κ : Type) where
   weighted : Bool
   nodes : List (Node × Meta)
   edges : List (κ × (W × Meta))
+  /-- `_incidences_metadata` (insertion ordered; NOT touched by `remove_edge`, not carried by extractions) -/
+  inc : List (IncKey × Meta) := []
+  /-- `_empty_edges` (`Hypergraph.add_empty_edge`: name ↦ metadata) -/
+  emptyEdges : List (Nat × Meta) := []
+  /-- `_hypergraph_metadata` -/
+  hmeta : Meta := []
 deriving DecidableEq, Repr
 
 variable {κ : Type} [DecidableEq κ] [Keyed κ]
 
 /-- `Hypergraph(weighted=w)` -/
-def empty (w : Bool) : Content κ := ⟨w, [], []⟩
+def empty (w : Bool) : Content κ :=
+  { weighted := w, nodes := [], edges := [],
+    hmeta := [(attrWeighted, if w then 1 else 0), (attrType, Keyed.typeTok κ)] }
 
 /-! ## mutators (`Hypergraph` methods; `DirectedHypergraph` has the same bodies on its keys) -/
 
@@ -126,6 +145,31 @@ def setEdgeAttr (c : Content κ) (k : κ) (a v : Nat) : Option (Content κ) :=
   | none => none
   | some x => some { c with edges := AL.set c.edges k (x.1, AL.set x.2 a v) }
 
+/-- `set_incidence_metadata(edge, node, metadata)`: the hyperedge must exist (canonical key `k`); the entry is
+stored under the key `(store, n)` (see `IncKey`); the node is not looked at -/
+def setIncMeta (c : Content κ) (k : κ) (store : List Nat × List Nat) (n : Node) (md : Meta) : Option (Content κ) :=
+  if AL.has c.edges k then some { c with inc := AL.set c.inc (store, n) md } else none
+
+/-- `get_incidence_metadata(edge, node)` (`ValueError` without the hyperedge, `KeyError` without the entry) -/
+def getIncMeta (c : Content κ) (k : κ) (store : List Nat × List Nat) (n : Node) : Option Meta :=
+  if AL.has c.edges k then AL.get? c.inc (store, n) else none
+
+/-- `get_incidence_metadata(edge, node)[field] = value` (the getter returns the stored dict itself) -/
+def setIncAttr (c : Content κ) (k : κ) (store : List Nat × List Nat) (n : Node) (a v : Nat) : Option (Content κ) :=
+  match getIncMeta c k store n with
+  | none => none
+  | some md => some { c with inc := AL.set c.inc (store, n) (AL.set md a v) }
+
+/-- `Hypergraph.add_empty_edge(name, metadata)`: a name that is already there raises -/
+def addEmptyEdge (c : Content κ) (name : Nat) (md : Meta) : Option (Content κ) :=
+  if AL.has c.emptyEdges name then none else some { c with emptyEdges := c.emptyEdges ++ [(name, md)] }
+
+/-- `set_hypergraph_metadata(metadata)` -/
+def setHyperMeta (c : Content κ) (md : Meta) : Content κ := { c with hmeta := md }
+
+/-- `set_attr_to_hypergraph_metadata(field, value)` -/
+def setHyperAttr (c : Content κ) (a v : Nat) : Content κ := { c with hmeta := AL.set c.hmeta a v }
+
 /-! ## histories -/
 
 inductive Op (κ : Type) where
@@ -137,6 +181,11 @@ inductive Op (κ : Type) where
   | setEdgeMeta (k : κ) (md : Meta)
   | setNodeAttr (n : Node) (a v : Nat)
   | setEdgeAttr (k : κ) (a v : Nat)
+  | setIncMeta (k : κ) (store : List Nat × List Nat) (n : Node) (md : Meta)
+  | setIncAttr (k : κ) (store : List Nat × List Nat) (n : Node) (a v : Nat)
+  | addEmptyEdge (name : Nat) (md : Meta)
+  | setHyperMeta (md : Meta)
+  | setHyperAttr (a v : Nat)
 
 /-- one call; `none` = the call raised -/
 def apply? (c : Content κ) : Op κ → Option (Content κ)
@@ -148,6 +197,11 @@ def apply? (c : Content κ) : Op κ → Option (Content κ)
   | .setEdgeMeta k md => setEdgeMeta c k md
   | .setNodeAttr n a v => setNodeAttr c n a v
   | .setEdgeAttr k a v => setEdgeAttr c k a v
+  | .setIncMeta k st n md => setIncMeta c k st n md
+  | .setIncAttr k st n a v => setIncAttr c k st n a v
+  | .addEmptyEdge name md => addEmptyEdge c name md
+  | .setHyperMeta md => some (setHyperMeta c md)
+  | .setHyperAttr a v => some (setHyperAttr c a v)
 
 /-- a rejected call leaves the object as it was -/
 def step (c : Content κ) (op : Op κ) : Content κ := (apply? c op).getD c
